@@ -46,13 +46,15 @@ def check(solver: z3.Solver, *extra, timeout_ms=None, strings=False):
     """sat/unsat/unknown with fallback; returns (answer, backend, reason, model|None)"""
     total = timeout_ms or Z3_TIMEOUT_MS
     # the same query is occasionally pathological for one random seed and instant for another (unstable queries): the z3 budget is split over
-    # three attempts with different seeds (1/4, 1/4, 1/2 of the budget) before the other solver is asked
+    # three attempts with different seeds (a short first one: almost every query takes milliseconds; then 1/4 and 1/2 of the budget) before the
+    # other solver is asked
     reason = ''
-    for attempt, share in enumerate((4, 4, 2)):
+    budgets = (min(1500, total // 4), total // 4, total // 2) if total >= 4000 else (total,)
+    for attempt, budget in enumerate(budgets):
         s2 = solver if attempt == 0 else z3.Solver()
         if attempt:
             s2.add(*solver.assertions()); s2.set('random_seed', attempt); s2.set('smt.random_seed', attempt)
-        s2.set('timeout', max(200, total // share))
+        s2.set('timeout', max(200, budget))
         s2.push()
         try:
             s2.add(*extra)
